@@ -24,7 +24,7 @@ CLAIMED = {
          'Inline Python from a closed language the oracle can evaluate; shadowing incl. shadow-then-read is in the domain since F24/F30 were repaired.'),
  'C06': ('PBT: hypothesis template/call-site generator (text+bytes, named+unnamed); reference interpreter with thunks + AST-level expansion compiled by sourcer',
          'Generated-input search: a 14-template library (value, parser, mixed, recursive, forwarding, capturing, class templates), generated templates and call sites with literal, rule-name, compound (capturing 0-2 call-site names), inline-Python, earlier-result (str/int/list/dict/tuple/None/instance), positional, keyword and nested arguments, plus families instantiating one template twice at one position with swapped / nested-different arguments; each grammar with and without a grammar header. Oracle 1: reference interpreter (no memo, thunks closed over the caller environment). Oracle 2: every non-recursive call expanded on the AST (alpha-renamed body, parser arguments substituted, value arguments let-bound, class templates specialised) and compiled by sourcer itself must agree.',
-         'F11 and F12 excluded by construction (known findings, witnesses replayed); inputs <= 4 exhaustive over {a,b,1,2} + random <= 8.'),
+         'F11 and F12 repaired in /repo (witnesses replayed as regressions); inputs <= 4 exhaustive over {a,b,1,2} + random <= 8.'),
  'C07': ('PBT: hypothesis grammars with dense references + five exponential/eviction families; rule bodies instrumented through the DSL (Expect(/(?s).*/) |> note); invariants over the (rule, position) call log and identity of memoised results',
          'Generated-input search: every rule and class body gets a DSL-level probe that logs (rule, position) through a Python-section callback (public API only); for hypothesis core grammars (text/bytes, optional ignore, classes, rules referenced from several alternatives, lookaheads and repetitions) on all inputs of length <= 4 plus longer ones, and for families whose un-memoised evaluation is exponential or that need an old memo entry again (inputs up to 1000 characters), no (rule, position) may be logged twice, the total is bounded by rules x (len+1), a fresh list/instance referenced twice at one position must be the identical object, and the instrumented parser must still agree with the reference on the outcome. Counts only, never wall-clock time.',
          'Start rule excluded from the per-position invariant when ignore patterns are declared (probe position is after the leading skip).'),
